@@ -229,7 +229,10 @@ def equivalence(ck, prog, pr, seed, fact):
     def mk_env(target):
         def h_snap(ex, st, callee, args, fn):
             st.trace = st.trace + (Event('snapshot', (), None),)
-            st.mem[('env', 'ceb')] = Opaque('ceb')
+            # the record of the snapshot: arbitrary field values (a wrapper may look at it, e.g. compare it with one it kept)
+            from mirsym.seqlock import symbolic_of_type as _sot
+            rec_ = _sot(ex, 'ClockErrorBound', 'snap_ceb')
+            st.mem[('env', 'ceb')] = rec_ if rec_ is not None else Opaque('ceb')
             return Enum(z3.If(snap_ok, z3.IntVal(0), z3.IntVal(1)), {'Ok': Struct([Ref('env', 'ceb')]), 'Err': Struct([shm_err(e1)])})
 
         def h_now(ex, st, callee, args, fn):
@@ -382,8 +385,57 @@ def open_equivalence(ck, prog, pr, oc, shm_err, fields_c, fields_r):
                 ec = errc.f[fields_c.index('errno')]; er = errr.f[fields_r.index('errno')]; er = er.f[0] if isinstance(er, Struct) else er
                 pr.prove_cegar('open: on failure both libraries report the same error kind and errno (whatever the caller\'s clockbound_err held before)', both, z3.And(kc == kr + 1, ec == er),
                                lambda m: None, lambda m: [])
+    # the optional out-parameter: clockbound_open(path, NULL) ("if err is non-null, fills *err") opens exactly when ShmReader::new succeeds
+    try:
+        exn = Exec(prog, env=mk_env(), opaque_calls=occ)
+        outs_n = [o for o in exn.run(f_open_c, [Opaque('path'), Opaque('nullptr')], State()) if o.kind == 'return']
+        pr.add(exn.side)
+        for i, o in enumerate(outs_n):
+            seq = [e.kind for e in o.state.trace if e.kind in ('reader_new', 'snapshot')]
+            opened = any(e.kind == 'leak' for e in o.state.trace)
+            wrote = any(e.kind == 'write_err' for e in o.state.trace)
+            pr.prove('clockbound_open(path, NULL) path %d: ShmReader::new is attempted, a context is returned exactly when it succeeds, nothing is written through the NULL pointer' % i, o.state.pcond(),
+                     z3.And(z3.BoolVal(seq == ['reader_new'] and not wrote), new_ok == z3.BoolVal(opened)))
+        ck.cov['open_wrappers_null_err_paths'] = len(outs_n)
+    except EngineError as e:
+        ck.inconclusive.append('clockbound_open with err = NULL not executable: %s' % e)
     ck.cov['open_wrappers'] = {'paths_c': len(outs_c), 'paths_rust': len(outs_r), 'extra_reader_operations': bad_seq[:2]}
     return bad_seq
+
+
+def wrappers_for_c14(ck, prog, seed):
+    """C14 for the two client libraries that wrap ClockErrorBound::now(): each returns exactly now()'s interval / status or its error
+    (converted kind and errno), for arbitrary state left in the C context by earlier calls; natively: a failing call followed, on the
+    same context, by a call that must succeed"""
+    pr = Prover(seed)
+    T = z3.BoolVal(True)
+
+    def fact(name, ok, detail=''):
+        pr.prove(name, T, z3.BoolVal(bool(ok)), need_reach=False)
+    try:
+        equivalence(ck, prog, pr, seed, fact)
+    except EngineError as e:
+        ck.inconclusive.append('client wrappers (clockbound_now / ClockBoundClient::now) not executable: %s' % e)
+    rp = common.Replay('debug')
+    bad = []
+    res = {}
+    for s2, what in (('none', 'nothing'), ('breachthenok', 'both were asked once while the monotonic clock read 2 s before as-of (causality breach), then time moved past as-of'),
+                     ('malformedthenok', 'both were asked once on a record with a drift of 1e9 ppb (malformed), then a well-formed record was published')):
+        o = rp.ask('abi2 ' + s2)
+        res['abi2 ' + s2] = o
+        ck.cov['evaluations'] += 1
+        f = dict(x.split('=', 1) for x in o.split()[1:] if '=' in x)
+        exp_ok = 'now_ok:1699999999.999994000:1700000000.6000:1'
+        for who in ('rust', 'c'):
+            if not o.startswith('ok') or not (f.get(who) or '').startswith('now_ok'):
+                bad.append('both clients opened on a consistent segment, %s happened, then a call with the monotonic clock 1 s after as-of on a well-formed record: the %s returns %s instead of an interval'
+                           % (what, 'C library' if who == 'c' else 'Rust client', f.get(who, o)[:80]))
+    rp.close()
+    ck.cov['native_wrapper_runs'] = res
+    if bad:
+        ck.violation('wrapper-error-sticks', bad[0], {'cmd': 'abi2', 'native': res, 'all': bad})
+        pr.handled = {n for n, m in pr.failed}
+    ck.absorb(pr, 'wrappers: ')
 
 
 def native_compare(ck, spec):
@@ -428,7 +480,16 @@ def native_compare(ck, spec):
         f = dict(x.split('=', 1) for x in o.split()[1:] if '=' in x)
         if f.get('rust') != f.get('c'):
             bad.append('scenario "%s" (the caller\'s clockbound_err held errno 2 from a previous call): Rust client -> %s, C library -> %s' % (s3, f.get('rust'), f.get('c')))
-    scen2 = ['none', 'oddgen', 'zerover', 'growbound']
+    # the C caller does not want error details (err = NULL, which clockbound.h allows): same outcome as with an error structure,
+    # except that a failure is only visible as a NULL context
+    for s4 in ('nullerr:rec 100 0 1100 0 5000 1000 1 101 0 1700000000 0', 'nullerr:missing', 'nullerr:zerogen'):
+        o = rp.ask('abi ' + s4)
+        res['abi ' + s4] = o
+        f = dict(x.split('=', 1) for x in o.split()[1:] if '=' in x)
+        r_, c_ = f.get('rust') or '', f.get('c') or ''
+        if (r_.startswith('open_err') != c_.startswith('open_err')) or (not r_.startswith('open_err') and r_ != c_) or 'panic' in o:
+            bad.append('scenario "%s" (clockbound_open called with err = NULL, as clockbound.h allows): Rust client -> %s, C library -> %s' % (s4.split()[0], r_ or o[:80], c_))
+    scen2 = ['none', 'oddgen', 'zerover', 'growbound', 'breachthenok', 'malformedthenok']
     for s2 in scen2:
         o = rp.ask('abi2 ' + s2)
         res['abi2 ' + s2] = o
@@ -436,9 +497,11 @@ def native_compare(ck, spec):
         if not o.startswith('ok') or f.get('rust') != f.get('c'):
             bad.append('both clients opened on a consistent segment, then %s, then now(): Rust client -> %s, C library -> %s' % (
                 {'none': 'nothing changed', 'oddgen': 'the generation became odd (update in flight)', 'zerover': 'the version was zeroed (segment wiped)',
-                 'growbound': 'both answered once, then a record with a much larger bound was published'}[s2], f.get('rust', o), f.get('c')))
+                 'growbound': 'both answered once, then a record with a much larger bound was published',
+                 'breachthenok': 'both were asked once while the monotonic clock read 2 s before as-of (causality breach), then time moved past as-of',
+                 'malformedthenok': 'both were asked once on a record with a drift of 1e9 ppb (malformed), then a well-formed record was published'}[s2], f.get('rust', o), f.get('c')))
     rp.close()
-    ck.cov['native_cross_check'] = {'scenarios': len(scen) + 1 + len(scen2), 'disagreements': len(bad)}
+    ck.cov['native_cross_check'] = {'scenarios': len(scen) + 1 + len(scen2) + 7, 'disagreements': len(bad)}
     ck.cov['traces_validated_against_impl'] = len(scen) + 1 + len(scen2)
     if bad:
         ck.violation('abi-native:' + re.sub(r'[^a-zA-Z]+', '_', bad[0])[:40], '; '.join(bad[:3]), {'native': res})
